@@ -39,7 +39,9 @@ namespace opensmt {
     void static inline normalize(char *&rat, const char *flo, bool is_neg) {
         mpq_t num;
         mpq_init(num);
-        int val = mpq_set_str(num, flo, 0);
+        // Base 10: with base 0 GMP would read a leading 0 as an octal (or 0x / 0b as a hex / binary) prefix,
+        // so that "010/3" denoted 8/3
+        int val = mpq_set_str(num, flo, 10);
         (void) val;
         assert(val != -1);
         mpq_canonicalize(num);
